@@ -16,6 +16,20 @@ def nondet_fr(star):
         return None
     return f
 
+def rand_fr(star):
+    """randFr / randFrStar (dealer polynomial coefficients): arbitrary field elements; the derivation from
+    the seed through SHA3 / ChaCha20 / map_bytes_to_Fr is outside the threshold-signature check"""
+    def f(ex, a, ins):
+        g = galg.new_gen(ex, 'pa')
+        v = galg.mvar(ex, (g,))
+        if star:
+            ex.add(v != 0)
+        galg.sc_write(ex, a[0], galg.Poly.gen(g))
+        return None if star else simp(v == 0)
+    return f
+
 def install(ex):
+    ex.stubs[P + 'randFr'] = rand_fr(False)
+    ex.stubs[P + 'randFrStar'] = rand_fr(True)
     ex.stubs[P + 'nondetFr'] = nondet_fr(False)
     ex.stubs[P + 'nondetFrStar'] = nondet_fr(True)
